@@ -8,6 +8,7 @@
 #include <type_traits>
 
 #include "../config.hpp"
+#include "verif_hooks.hpp"
 
 namespace foonathan
 {
@@ -197,15 +198,28 @@ namespace foonathan
                 }
 
             private:
+#if defined(FOONATHAN_MEMORY_VERIF) && FOONATHAN_MEMORY_VERIF
+                static verif_atomic<std::size_t>    no_counter_objects_;
+                static verif_atomic<std::ptrdiff_t> allocated_;
+#else
                 static std::atomic<std::size_t>    no_counter_objects_;
                 static std::atomic<std::ptrdiff_t> allocated_;
+#endif
             };
 
+#if defined(FOONATHAN_MEMORY_VERIF) && FOONATHAN_MEMORY_VERIF
+            template <class Handler>
+            verif_atomic<std::size_t> global_leak_checker_impl<Handler>::no_counter_objects_(0u);
+
+            template <class Handler>
+            verif_atomic<std::ptrdiff_t> global_leak_checker_impl<Handler>::allocated_(0);
+#else
             template <class Handler>
             std::atomic<std::size_t> global_leak_checker_impl<Handler>::no_counter_objects_(0u);
 
             template <class Handler>
             std::atomic<std::ptrdiff_t> global_leak_checker_impl<Handler>::allocated_(0);
+#endif
 
 #if FOONATHAN_MEMORY_DEBUG_LEAK_CHECK
             template <class Handler>
